@@ -20,12 +20,14 @@ def describe(tier):
     b = BOUNDS[tier]
     return {
         "rule": "harnesses H1 requirement_constraint_evaluation (3 RC keys x 2 hints, all 6 permutations of F/U/UNKNOWN), H2 "
-                "format_constraint_evaluation (4 FCs with distinct answers and messages), H3 evaluate_ahb_expression_tree (2-3 modal mark parts "
+                "format_constraint_evaluation (4 FCs with distinct answers and messages; also with 1-3 of the keys answered by PLAIN evaluate methods next to coroutine "
+                "methods; the zero-yield value is compared with the documented Boolean value), H3 evaluate_ahb_expression_tree (2-3 modal mark parts "
                 "incl. a bare indicator; mixed plain/awaitable list), H4 expand_packages (4 occurrences, two of the same key; and a missing "
                 "package), H5 2-3 concurrent evaluations as tasks each with its own context-local data (also through the library's "
                 "ContentEvaluationResult-based evaluators), H8 the same with packages in each evaluation's own content evaluation result (same package keys, other expressions), H10 one token logic provider "
-                "serving two format versions with different evaluators / hints / packages and concurrent evaluations carrying different versions, H3 also with parts that raise "
-                "InvalidExpressionError (same exception class in every order), H6 is_valid_expression with a ContextVar setter (valid and invalid expression), H9 = H1/H3 with a synchronous hints provider, H7 "
+                "serving two format versions with different evaluators / hints / packages and concurrent evaluations carrying different versions, H11 user-style evaluators with real evaluate_<key> methods of which some are plain and some suspending coroutine functions (RC and FC; zero-yield value "
+                "compared with the reference), H3 also with parts that raise "
+                "InvalidExpressionError (same exception class in every order), H6 is_valid_expression with a ContextVar setter (valid and invalid expression; no content evaluation result may be handed to two of the concurrent evaluations), H9 = H1/H3 with a synchronous hints provider, H7 "
                 "every assignment of the evaluator kinds {sync, async-immediate, async-yield-once, async-yield-twice} to 3 keys. For every "
                 "harness ALL completion orders of the pending awaitables at quiescent points are enumerated depth-first on a virtual event "
                 f"loop (H3-large / H6-large: <= {b['large_order_bound']} deviations from oldest-first), plus <= {b['early']} early/batched "
@@ -107,13 +109,18 @@ def h1(params, zero):
     return factory
 
 
+H2_EXPRS = ["[901] U ([902] O [903]) X [904]", "([904] O [901]) U [903] X [902]"]
+H2_SYNC = [[], ["902"], ["901", "903"], ["904"], ["901", "902", "903"]]  # keys answered by PLAIN evaluate methods (the others are coroutine methods)
+
+
 def h2(params, zero):
     vals = params["vals"]
     fc = {k: (bool(v), None if v else f"msg {k}") for k, v in zip(("901", "902", "903", "904"), vals)}
-    expr = ["[901] U ([902] O [903]) X [904]", "([904] O [901]) U [903] X [902]"][params["expr"]]
+    expr = H2_EXPRS[params["expr"]]
+    sync = {("fc", k) for k in H2_SYNC[params.get("sync", 0)]}
 
     def factory(sched):
-        env = _env(sched, fc=fc, yields={"*": 0} if zero else None)
+        env = _env(sched, fc=fc, yields={"*": 0} if zero else None, sync=sync)
 
         async def go():
             r = await _I.format_constraint_evaluation(expr)
@@ -221,15 +228,21 @@ def h6(params, zero):
     expr = ["Muss [1] U [501]", "Muss [1] O [501]", "Muss [1][901]", "Muss [2] Soll [1] X [501]"][params["expr"]]
 
     def factory(sched):
+        handed_out = []
+
         def setter(cer):
+            tag = "".join(_I.STATE_NAME[v] for v in cer.requirement_constraints.values()) + "".join(
+                "ft"[v.format_constraint_fulfilled] for v in cer.format_constraints.values()) + "/"
+            handed_out.append(tag)
             _I.ENV.set(_env(sched, rc={k: _I.STATE_NAME[v] for k, v in cer.requirement_constraints.items()},
                             fc={k: (v.format_constraint_fulfilled, v.error_message) for k, v in cer.format_constraints.items()},
-                            hints=dict(cer.hints), yields={"*": 0} if zero else None,
-                            tag="".join(_I.STATE_NAME[v] for v in cer.requirement_constraints.values()) + "/"))
+                            hints=dict(cer.hints), yields={"*": 0} if zero else None, tag=tag))
 
         async def go():
             ok, msg = await _I.is_valid_expression(expr, setter)
-            return [ok, msg is None]
+            # third component: the SAME content evaluation result was handed to more than one of the concurrent evaluations
+            # (each evaluation is to run on the data produced for it; an implementation that never calls the setter is fine)
+            return [ok, msg is None, len(set(handed_out)) != len(handed_out)]
 
         return _with_env(_I.Env(), go)
 
@@ -428,7 +441,85 @@ def h10(params, zero):
     return factory
 
 
-HARNESS = {"H10": h10, "H1": h1, "H2": h2, "H3": h3, "H4": h4, "H5": h5, "H6": h6, "H7": h7, "H8": h8, "H9": h9}
+H11_RC_EXPRS = ["[2] U ([1] O [3]) U [501]", "[3] U ([2] O [1]) U [501]", "([1] O [3]) U [2]", "[1] U ([2] O [3])"]  # asymmetric in every pair of keys
+
+
+def h11(params, zero):
+    """user-style evaluators with REAL evaluate_<key> methods, some plain functions and some coroutine functions that suspend
+    (the library discovers them by name; 931-935 are inherited plain methods): RC keys 1, 3 and FC keys 901, 903 are coroutine
+    methods, RC key 2 and FC keys 902, 904 plain ones"""
+    from ahbicht.content_evaluation.evaluationdatatypes import EvaluatableData, EvaluatableDataProvider, EvaluationContext
+    from ahbicht.content_evaluation.fc_evaluators import FcEvaluator
+    from ahbicht.content_evaluation.rc_evaluators import RcEvaluator
+    from ahbicht.content_evaluation.token_logic_provider import SingletonTokenLogicProvider, TokenLogicProvider
+    from ahbicht.expressions.hints_provider import DictBasedHintsProvider
+    import inject
+
+    what = params["what"]
+    if what == "fc":
+        expr = H2_EXPRS[params["expr"]]
+        fcv = {k: (bool(v), None if v else f"msg {k}") for k, v in zip(("901", "902", "903", "904"), params["vals"])}
+        rcv = {}
+    else:
+        expr = H11_RC_EXPRS[params["expr"]]
+        rcv = dict(zip(("1", "2", "3"), PERMS[params["perm"]]))
+        fcv = {}
+
+    def factory(sched):
+        async def point(what_):
+            if not zero:
+                await sched.point(what_)
+
+        def rc_method(key, is_async):
+            if is_async:
+                async def evaluate(self, evaluatable_data, context):
+                    await point(f"rc:{key}")
+                    return _I.STATE[rcv[key]]
+            else:
+                def evaluate(self, evaluatable_data, context):
+                    return _I.STATE[rcv[key]]
+            return evaluate
+
+        def fc_method(key, is_async):
+            if is_async:
+                async def evaluate(self, entered_input):
+                    await point(f"fc:{key}")
+                    return _I.EvaluatedFormatConstraint(format_constraint_fulfilled=fcv[key][0], error_message=fcv[key][1])
+            else:
+                def evaluate(self, entered_input):
+                    return _I.EvaluatedFormatConstraint(format_constraint_fulfilled=fcv[key][0], error_message=fcv[key][1])
+            return evaluate
+
+        rc_ns = {f"evaluate_{k}": rc_method(k, k in ("1", "3")) for k in rcv}
+        rc_ns.update(edifact_format=_I.FMT, edifact_format_version=_I.FMTV, _get_default_context=lambda self: EvaluationContext(scope=None))
+        fc_ns = {f"evaluate_{k}": fc_method(k, k in ("901", "903")) for k in fcv}
+        fc_ns.update(edifact_format=_I.FMT, edifact_format_version=_I.FMTV)
+        hp = DictBasedHintsProvider({"501": "Hinweis"})
+        hp.edifact_format, hp.edifact_format_version = _I.FMT, _I.FMTV
+        provider = SingletonTokenLogicProvider([type("UserRc", (RcEvaluator,), rc_ns)(), type("UserFc", (FcEvaluator,), fc_ns)(), hp])
+
+        def configure(binder):
+            binder.bind(TokenLogicProvider, provider)
+            binder.bind_to_provider(EvaluatableDataProvider,
+                                    lambda: EvaluatableData(body=None, edifact_format=_I.FMT, edifact_format_version=_I.FMTV))
+
+        async def main():
+            inject.clear_and_configure(configure)
+            try:
+                if what == "fc":
+                    r = await _I.format_constraint_evaluation(expr)
+                    return [r.format_constraints_fulfilled, r.error_message]
+                return _rc_obs(await _I.requirement_constraint_evaluation(expr))
+            finally:
+                _I._configured = False
+                _I.setup()
+
+        return main()
+
+    return factory
+
+
+HARNESS = {"H11": h11, "H10": h10, "H1": h1, "H2": h2, "H3": h3, "H4": h4, "H5": h5, "H6": h6, "H7": h7, "H8": h8, "H9": h9}
 
 
 def plan(tier, seed):
@@ -443,6 +534,8 @@ def plan(tier, seed):
             add("H1", {"perm": perm, "expr": e}, order_bound=None if e < 3 else b["large_order_bound"] + 1)
     for vals in itertools.product((0, 1), repeat=4):
         add("H2", {"vals": list(vals), "expr": sum(vals) % 2})
+        for sy in range(1, len(H2_SYNC)):
+            add("H2", {"vals": list(vals), "expr": (sum(vals) + sy) % 2, "sync": sy})
     for perm in range(6):
         for e in range(len(H3_EXPRS)):
             add("H3", {"perm": perm, "expr": e}, order_bound=b["large_order_bound"] if e == 2 else None)
@@ -467,8 +560,14 @@ def plan(tier, seed):
     add("H8", {"n": 2, "perm": 1, "pk": True})
     add("H8", {"n": 3, "perm": 2, "pk": True}, order_bound=b["large_order_bound"])
     for assign in ([0, 1], [1, 0]):
-        add("H10", {"versions": assign})
+        add("H10", {"versions": assign}, order_bound=b["large_order_bound"] + 1 if tier == "quick" else None)
     add("H10", {"versions": [0, 1, 0]}, order_bound=b["large_order_bound"])
+    for vals in itertools.product((0, 1), repeat=4):
+        for e in range(len(H2_EXPRS)):
+            add("H11", {"what": "fc", "vals": list(vals), "expr": e})
+    for perm in range(6):
+        for e in range(len(H11_RC_EXPRS)):
+            add("H11", {"what": "rc", "perm": perm, "expr": e})
     for perm in (0, 2, 5):
         for e in range(3):
             add("H9", {"base": "H1", "perm": perm, "expr": e})
@@ -537,10 +636,47 @@ def _solo_violations(item, base):
     return out
 
 
+def _absolute_violations(item, base):
+    """absolute oracles on the zero-yield baseline (independent of any schedule): H2 = Boolean value under the documented
+    precedence (R2) + message iff unfulfilled; H6 = no content evaluation result handed to two evaluations"""
+    from mc.ref import condparse as R2
+
+    got = json.loads(base)
+    if item["h"] == "H11" and item["params"]["what"] == "rc":
+        from mc.ref import reqeval as R3
+
+        expr = H11_RC_EXPRS[item["params"]["expr"]]
+        tt = _I.tree_to_tuple(_I.parse_condition_expression_to_tree(expr))
+        want = list(R3.outcome(R3.state(tt, dict(zip(("1", "2", "3"), PERMS[item["params"]["perm"]])))))
+        if got[0] == "exception" and want[0] is None:
+            return []  # undetermined outcome: NotImplementedError is the documented behaviour
+        if got[0] == "exception" or got[:2] != want:
+            return [("key-paired-with-wrong-value", want, got)]
+        return []
+    if item["h"] == "H2" or (item["h"] == "H11" and item["params"]["what"] == "fc"):
+        val = {k: bool(v) for k, v in zip(("901", "902", "903", "904"), item["params"]["vals"])}
+        want = R2.to_bool(R2.parse(H2_EXPRS[item["params"]["expr"]]), val)
+        if got[0] == "exception" or got[0] is not want or (got[1] is not None) != (not want):
+            return [("key-paired-with-wrong-value", [want, "message" if not want else None], got)]
+    return []
+
+
+def _h6_dup(item, out):
+    got = json.loads(out)
+    return item["h"] == "H6" and got[0] != "exception" and len(got) > 2 and got[2] is True
+
+
 def run_item(item):
     worker_init()
     r = Result()
     base = _baseline(item)
+    for kind, want, got in _absolute_violations(item, base):
+        r.violation(kind, {"h": item["h"], "params": item["params"], "choices": []}, want, got,
+                    f"{item['h']} {item['params']}: the zero-yield result itself is wrong (reference: documented precedence)")
+    if _h6_dup(item, base):
+        r.violation("same-data-handed-to-several-evaluations", {"h": item["h"], "params": item["params"], "choices": []},
+                    "pairwise different content evaluation results", "one content evaluation result handed to the setter more than once",
+                    "is_valid_expression: each concurrent evaluation is to run on the content evaluation result produced for it")
     for i, solo, got in _solo_violations(item, base):
         r.violation("concurrent-differs-from-solo", {"h": item["h"], "params": item["params"], "choices": [], "solo": i}, solo, got,
                     f"{item['h']} {item['params']}: evaluation {i} run together with the others (zero-yield schedule) differs from its solo run")
@@ -585,6 +721,11 @@ def replay(case):
     ex = vloop.run_schedule(HARNESS[case["h"]](case["params"], False), case["choices"])
     out = _observe(ex)
     vs = []
+    for kind, want, got in _absolute_violations(item, base):
+        vs.append({"kind": kind, "case": case, "expected": want, "observed": got})
+    if _h6_dup(item, base):
+        vs.append({"kind": "same-data-handed-to-several-evaluations", "case": case, "expected": "pairwise different content evaluation results",
+                   "observed": "one content evaluation result handed to the setter more than once"})
     for i, solo, got in _solo_violations(item, base):
         vs.append({"kind": "concurrent-differs-from-solo", "case": case, "expected": solo, "observed": got})
     pairing = _h4_pairing_violation(item, base)
